@@ -252,7 +252,7 @@ def xliqLine (s : HistState) (t : List String) : Option String :=
     | none => pure "err NoSuchPosition"
     | some _ =>
       if auth = 2 then pure "err AccountNotSigner"
-      else if auth = 1 then pure "err MissingOrInvalidDelegate"
+      else if auth = 1 || auth = 6 then pure "err MissingOrInvalidDelegate"   -- 6: a stranger paying from his own accounts
       else if auth = 4 then pure "err ConstraintAddress"   -- the position belongs to another pool (C15)
       else if auth = 3 || auth = 5 then pure "err ConstraintRaw"   -- a stranger holding one token of ANOTHER mint; an EMPTY account of the position mint (C04)
       else
@@ -302,7 +302,7 @@ def xliqtLine (s : HistState) (t : List String) : Option String :=
     | none => pure "err NoSuchPosition"
     | some pos =>
       if authN = 2 then pure "err AccountNotSigner"
-      else if authN = 1 then pure "err MissingOrInvalidDelegate"
+      else if authN = 1 || authN = 6 then pure "err MissingOrInvalidDelegate"   -- 6: a stranger paying from his own accounts
       else if authN = 4 then pure "err ConstraintAddress"   -- the position belongs to another pool (C15)
       else if authN = 3 || authN = 5 then pure "err ConstraintRaw"   -- a stranger holding one token of ANOTHER mint; an EMPTY account of the position mint (C04)
       else if s.pool.price < minP || s.pool.price > maxP then pure "err PriceSlippageOutOfBounds"
@@ -483,7 +483,7 @@ def xrepoLine (s : HistState) (t : List String) : Option String :=
     | some pos =>
       if newLiq = 0 then pure "err LiquidityZero"
       else if auth = 2 then pure "err AccountNotSigner"
-      else if auth = 1 then pure "err MissingOrInvalidDelegate"
+      else if auth = 1 || auth = 6 then pure "err MissingOrInvalidDelegate"   -- 6: a stranger paying from his own accounts
       else if auth = 4 then pure "err ConstraintAddress"   -- the position belongs to another pool (C15)
       else if auth = 3 || auth = 5 then pure "err ConstraintRaw"   -- a stranger holding one token of ANOTHER mint; an EMPTY account of the position mint (C04)
       else
